@@ -54,7 +54,7 @@ RULE = (
 )
 CLASSES = [
     "nested_dict", "list_mutation", "multi_handle", "project_doc", "buffer_cap0", "nested_blocks", "forced_flush", "block_left_by_exception",
-    "multi_handle_in_block", "stale_object_in_block", "inside_with_job", "doc_after_remove", "doc_after_rekey", "attr_access", "assign_live_view", "type_drift", "write_deferred", "keyerror_matched",
+    "multi_handle_in_block", "stale_object_in_block", "inside_with_job", "removed_job_reopened_by_id", "doc_after_remove", "doc_after_rekey", "attr_access", "assign_live_view", "type_drift", "write_deferred", "keyerror_matched",
     "lifecycle_between_blocks", "job_clear", "job_reset", "copy_handle_follows_rekey", "capacity_in_block",
 ]
 ASSUMPTIONS = [
@@ -731,12 +731,34 @@ class Run:
                 # removing it (nobody knows the state point any more): read it first, as a user would
                 job.statepoint()
                 job.remove()
-                job.init()
+                reopened = False
+                if op.get("reopen"):
+                    # instead of init(): the removed job is opened again by its id through the same Project object
+                    # (which still knows the id) and simply used -- the first document access creates it
+                    try:
+                        job = job._project.open_job(id=job.id)
+                        reopened = True
+                    except (KeyError, LookupError):
+                        pass
+                if reopened:
+                    h["obj"], h["kind"] = job, "id"
+                    h.pop("docref", None)
+                    h.pop("docref_survived_remove", None)
+                    self.cl.add("removed_job_reopened_by_id")
+                else:
+                    job.init()
             except Exception as e:
                 self.mm("unexpected_exception", f"job.remove(); job.init() raised {type(e).__name__}: {e}")
                 return
             self.model[t] = {}
             self.cl.add("doc_after_remove")
+            if reopened:
+                # (the first document access through the re-opened handle is what creates the job again)
+                try:
+                    job.doc()
+                except Exception as e:
+                    self.mm("doc_after_remove", f"first document access through a handle re-opened by id after remove() raised {type(e).__name__}: {e}")
+                    return
             self.refresh_others(t, h, "remove")
             try:
                 real = rplain(job.doc())
@@ -1179,6 +1201,8 @@ def one_op(draw, ntargets):
     if name in ("setitem", "setattr", "setdefault", "pop_default", "nested_set", "nested_setdefault", "list_append", "list_insert",
                 "list_setitem", "list_remove", "read_get"):
         op["v"] = draw(any_value)
+    if name == "job_remove_init" and draw(st.booleans()):
+        op["reopen"] = True
     if name == "job_rekey":
         op["v"] = draw(st.integers(0, 3))
         op["via"] = draw(st.sampled_from(["setitem", "attr", "update_statepoint", "assign"]))
@@ -1259,6 +1283,11 @@ def _c(ops, **kw):
 
 
 CONSTRUCTED = [
+    # a removed job opened again by id through the Project object that still knows it, then written to without init()
+    {"targets": 1, "keepref": False, "nh": 2, "init": [{"x": 1}, None], "copy_after_doc": False, "mode_R": [], "capacity": None, "ops": [
+        {"op": "job_remove_init", "t": 0, "h": 0, "reopen": True}, {"op": "setitem", "t": 0, "h": 0, "k": "k", "v": 1}, {"op": "read_call", "t": 0, "h": 1}]},
+    {"targets": 1, "keepref": False, "nh": 3, "init": [{"x": 1}, None], "copy_after_doc": False, "mode_R": [{"pos": 0, "kind": "open", "arg": 64}], "capacity": None, "ops": [
+        {"op": "job_remove_init", "t": 0, "h": 1, "reopen": True}, {"op": "update_kw", "t": 0, "h": 1, "m": {"y": [1]}}]},
     # document operations while the job is open as a context manager (`with job:`): visible to other handles and in the file at once
     {"targets": 1, "keepref": False, "nh": 3, "job_ctx": True, "init": [{"x": 1}, None], "copy_after_doc": False, "mode_R": [], "capacity": None, "ops": [
         {"op": "setitem", "t": 0, "h": 0, "k": "k", "v": 1}, {"op": "update_kw", "t": 0, "h": 1, "m": {"y": [1, 2]}}, {"op": "setitem", "t": 0, "h": 2, "k": "z", "v": {"a": None}},
